@@ -204,7 +204,7 @@ func RunGatedHistory(id int, seed int64, brokerSet bool, E int) (h *GHistory, pa
 			}
 			flush := r.Intn(4) == 0
 			op, ev := inv(HRec{"kind": kind, "id": gid, "flush": flush, "fail": fail}, &gid)
-			e := &eventlogger.Event{Type: "t", Payload: &hpay{ID: idSpelling[gid], Flush: flush, Ord: ev, h: hc}, Formatted: map[string][]byte{}}
+			e := &eventlogger.Event{Type: "t", CreatedAt: stamp(ev), Payload: &hpay{ID: idSpelling[gid], Flush: flush, Ord: ev, h: hc}, Formatted: map[string][]byte{}}
 			out, err := f.Process(ctx, e)
 			o := classify(out, err, &ctrl{sent: oc.sent})
 			resp(op, HRec{"ret": o.Ret, "sent": nonNil(o.Sent)})
